@@ -180,6 +180,12 @@ def corruptions(tier):
         "many-quotes": ("'" * 61 + "\n") * 2,
         "common-garbage": "subroutine zq()\n  common // a, b /c/ d,\n  namelist /n/ \nend subroutine zq\n",
         "type-garbage": "module zq\n  type, extends() :: t\n  end type\n  type :: \n  end type\nend module zq\n",
+        # entities that name themselves where another entity is meant (each file parses; what follows must still terminate)
+        "submodule-own-parent": "submodule (shapes:zs) zs\ncontains\nend submodule zs\n",
+        "submodule-own-parent-with-proc": "module zq\n  interface\n    module subroutine zp()\n    end subroutine zp\n  end interface\nend module zq\nsubmodule (zq:zs) zs\ncontains\n  module subroutine zp()\n  end subroutine zp\nend submodule zs\n",
+        "type-extends-itself": "module zq\n  type, extends(zt) :: zt\n    integer :: q\n  end type zt\ncontains\n  subroutine zs(x)\n    class(zt) :: x\n    call x%foo()\n    x%q = x%zt%q\n  end subroutine zs\nend module zq\n",
+        "module-uses-itself": "module zq\n  use zq\n  integer :: x\nend module zq\n",
+        "procedure-calls-itself-through-type": "module zq\n  type zt\n    type(zt), pointer :: next\n  contains\n    procedure :: zp\n  end type zt\ncontains\n  recursive subroutine zp(self)\n    class(zt) :: self\n    call self%next%next%zp()\n  end subroutine zp\nend module zq\n",
         # text that looks like console markup, echoed in the diagnostics
         "markup-ini-file": "[section]\nkey = value &\n[/section]\n& more [/b]\n",
         "markup-leading-amp": "module zq\n  integer :: x\n  & [/x] stray\nend module zq\n",
